@@ -224,19 +224,26 @@ def tmpl_two_returns(rng):
 def tmpl_forward_jump(rng):
     """Data-driven control flow over two label keys: an earlier command's conditional heart is first not
     taken, a later command registers the label, a backward jump returns, then the earlier command jumps
-    FORWARD to the already registered label."""
+    FORWARD to the already registered label.  Skeleton  L: label2 ; A: cond label1 ; B: label1 ; J: cond label2,
+    with random extra commands in between; the data values that steer the conditions are sampled until the
+    reference model really takes a forward jump."""
     from .refinterp import Machine, Limits
     prog = None
     for _ in range(400):
-        data = [rng.choice([0, 0, 1, 5, 5, 70, 77, 84, 90]) for _ in range(rng.randint(8, 18))]
+        data = [rng.choice([0, 0, 1, 5, 5, 70, 77, 84, 90]) for _ in range(rng.randint(10, 20))]
         prog = [(0, 1, v, None) for v in data]
-        labs = rng.sample([2, 5, 7, 9], 2)
-        forms = []
-        for lab in labs:
-            forms += [lab, ('?', lab, None), ('?', None, lab), ('!', lab, None), ('?', lab, ('?', None, lab))]
-        forms += [13, ('?', 13, None)]
-        for _ in range(rng.randint(4, 8)):
-            prog.append((1, 1, rng.choice([1, 1, 2]), rng.choice(forms)))
+        lab1, lab2 = rng.sample([2, 5, 7, 9], 2)
+        d1, d2 = rng.choice([(1, 2), (2, 1), (1, 1), (2, 2)])
+
+        def filler():
+            return [(1, 1, rng.choice([1, 2]), rng.choice([None, None, 13, ('?', 13, None)]))] if rng.random() < 0.3 else []
+        cond = lambda lab: rng.choice([('?', lab, None), ('?', lab, None), ('?', None, lab), ('!', lab, None)])
+        prog += [(1, 1, d2, lab2)] + filler()
+        prog += [(1, 1, d1, cond(lab1))] + filler()
+        prog += [(1, 1, d1, lab1)] + filler()
+        prog += [(1, 1, d2, cond(lab2))] + filler()
+        if rng.random() < 0.4:
+            prog += [(1, 1, d1, cond(lab1))]
         m = Machine(prog, '', Limits(steps=400))
         o, e, end = m.run()
         if not end.startswith('notadmitted') and m.st['forward_jumps']:
